@@ -91,7 +91,51 @@ def describe(tr, line, clause):
         tr["m"], "; ".join(show(x) for x in tr["ev"][max(0, line - 4):line - 1]), show(e), fresh, clause)
 
 
+def report(ctx, traces, verdicts):
+    for tr in traces:
+        seen = set()
+        for line, clause, _ in verdicts[tr["t"]]:
+            if clause.startswith("drift:"):
+                ctx.drift("%s (%s)" % (clause[6:], tr["m"].split("/")[0]))
+                continue
+            k = fail_key(tr, line, clause)
+            if k in seen:
+                continue
+            seen.add(k)
+            ctx.fail(k, describe(tr, line, clause), {"source": tr["src"], "trace": tr, "line": line, "clause": clause})
+
+
+def replay(ctx):
+    """./check C11 --replay <file>: the recorded history's inputs get new fresh-process baselines, are run again
+    on one object of the current tree, and TLC judges the new trace"""
+    import json
+    case = json.load(open(ctx.replay))["case"]
+    tr = case["trace"]
+    isa, mode = tr["m"].split("/")
+    inputs = [bytes(e["in"]).hex() for e in tr["ev"]]
+    fresh = mp.get_context("fork").Pool(1, maxtasksperchild=1)
+    try:
+        base = fresh.apply(c11.baseline_task, ((isa, mode, inputs),))["base"]
+        new = fresh.apply(c11.replay_history, ((isa, mode, inputs, [e.get("cls", "-") for e in tr["ev"]], base),))
+    finally:
+        fresh.close()
+        fresh.join()
+    new["t"] = 1
+    new["maxlen"] = 0
+    verdicts = D.validate(ctx, [new], "c11r")
+    ctx.case(key=("replay", tr["m"]))
+    ctx.case(key=("replay-calls", len(new["ev"])))
+    ctx.trace()
+    ctx.sample({"replayed": ctx.replay, "verdict": verdicts[1],
+                "calls": [{"in": bytes(e["in"]).hex(), "out": e["out"], "pending_after": e["pend"],
+                           "fresh_process": e["base"]} for e in new["ev"]]})
+    ctx.rule = "replay of one recorded call history on one object of the current tree against new fresh-process baselines"
+    report(ctx, [new], verdicts)
+
+
 def run(ctx):
+    if ctx.replay:
+        return replay(ctx)
     quick = ctx.tier == "quick"
     ctx.rule = ("one case = one call history on ONE disassembler object: (G) every history of L calls over the "
                 "input classes {valid, invalid, truncated, rejecting, raising, prefix_only, prefix_truncated, "
@@ -105,10 +149,11 @@ def run(ctx):
     ctx.assume("each history runs on a shallow copy of the never-used module-level disassembler object (same "
                "specification tree, own pending-prefix variable)")
     ctx.assume("outcomes are compared through harness.dec_common.outcome (bytes, length, mnemonic, fingerprint of "
-               "the instruction's instance dictionary)")
+               "the instruction's instance dictionary; misc entries holding None count as absent)")
     # --- M ----------------------------------------------------------------------------------------------
     D.selftest(ctx, ("c11",))
-    model_runs(ctx, quick)
+    if not os.environ.get("VERIF_DEC_SKIP_M"):      # development aid for mutation experiments only
+        model_runs(ctx, quick)
     # --- G: histories out of TLC ------------------------------------------------------------------------
     h3 = generate(ctx, "DecoderGen3.cfg")
     h4 = generate(ctx, "DecoderGen4.cfg")
@@ -136,10 +181,13 @@ def run(ctx):
         for p in pools:
             have = sorted(set(e["cls"] for e in p["pool"]))
             classes_found["%s/%s" % (p["isa"], p["mode"])] = dict((c, sum(1 for e in p["pool"] if e["cls"] == c)) for c in have)
+            main = p["isa"] == "x86" and p["mode"] == "m32"
             if p["has_prefix"]:
-                hs = (h3 + h4) if quick else (h4 + h5 if p["isa"] == "x86" and p["mode"] == "m32" else h3 + h4)
-                if quick and not (p["isa"] == "x86" and p["mode"] == "m32"):
-                    hs = h3 + [h for k, h in enumerate(h4) if k % 4 == ctx.seed % 4]
+                if quick:
+                    # all histories of 3 calls; all of 4 calls on x86/m32, every 4th (seed-rotated) elsewhere
+                    hs = h3 + (h4 if main else [h for k, h in enumerate(h4) if k % 4 == ctx.seed % 4])
+                else:
+                    hs = h4 + (h5 if main else [h for k, h in enumerate(h5) if k % 8 == ctx.seed % 8])
             else:
                 src = h4 if quick else h5
                 hs = [h for h in src if all(c["cls"] in plain for c in h)]
@@ -178,16 +226,7 @@ def run(ctx):
         st = per.setdefault(tr["m"], {"G": 0, "T": 0, "calls": 0})
         st[tr["src"]] += 1
         st["calls"] += len(tr["ev"])
-        seen = set()
-        for line, clause, _ in verdicts[tr["t"]]:
-            if clause.startswith("drift:"):
-                ctx.drift("%s (%s)" % (clause[6:], tr["m"].split("/")[0]))
-                continue
-            k = fail_key(tr, line, clause)
-            if k in seen:
-                continue
-            seen.add(k)
-            ctx.fail(k, describe(tr, line, clause), {"source": tr["src"], "trace": tr, "line": line, "clause": clause})
+    report(ctx, traces, verdicts)
     ctx.note("per_isa_mode", per)
     ctx.note("decode_calls_replayed", ncalls)
     pick = [t for t in traces if t["src"] == "G" and any(e["cls"].startswith("prefix") for e in t["ev"])]
